@@ -36,6 +36,8 @@ size_t outbuf_extend (outbuffer_t * outbuf, size_t len) {
     }
   else
     {
+      if (len > USHRT_MAX)
+        len = USHRT_MAX;	/* TRUNCATED: an output buffer never holds more than USHRT_MAX characters */
       outbuf->buffer = new_string (len, "outbuf_add");
       outbuf->real_size = 0;
     }
@@ -76,6 +78,15 @@ void outbuf_add (outbuffer_t * outbuf, const char *str) {
     }
   else
     {
+      if (len > USHRT_MAX)
+        {
+          /* TRUNCATED, as above: the block must not start out larger than its size field can tell */
+          outbuf->buffer = new_string (USHRT_MAX, "outbuf_add");
+          strncpy (outbuf->buffer, str, USHRT_MAX);
+          outbuf->buffer[USHRT_MAX] = 0;
+          outbuf->real_size = USHRT_MAX;
+          return;
+        }
       outbuf->buffer = new_string (len, "outbuf_add");
       outbuf->real_size = 0;
     }
